@@ -134,17 +134,20 @@ def source_audit():
 
 def regenerate_tables():
     """S0: rewrite lean/DAVerif/Generated/*.lean from /repo's working tree (translator)."""
-    ext = os.path.join(VERIF, "harness", "extract_tables.py")
-    if not os.path.exists(ext):
-        return {"skipped": True}
-    r = subprocess.run([sys.executable, ext], capture_output=True, text=True, timeout=300,
-                       env=dict(os.environ, PYTHONPATH=REPO))
-    if r.returncode != 0:
-        return {"error": (r.stdout + r.stderr)[-4000:]}
-    try:
-        return json.loads(r.stdout.strip().split("\n")[-1])
-    except Exception:
-        return {"ok": True}
+    res = {}
+    for name in ("extract_tables.py", "extract_expr_tables.py"):
+        ext = os.path.join(VERIF, "harness", name)
+        if not os.path.exists(ext):
+            continue
+        r = subprocess.run([sys.executable, ext], capture_output=True, text=True, timeout=300,
+                           env=dict(os.environ, PYTHONPATH=REPO))
+        if r.returncode != 0:
+            return {"error": name + ": " + (r.stdout + r.stderr)[-4000:]}
+        try:
+            res[name] = json.loads(r.stdout.strip().split("\n")[-1])
+        except Exception:
+            res[name] = {"ok": True}
+    return res or {"skipped": True}
 
 
 def lake_build(targets=("DAVerif", "driver"), timeout=3000):
